@@ -437,9 +437,38 @@ func c05GoldenFor(d *c05Driver) [][]string {
 }
 
 func c05Harness(di int) mc.Harness {
+	return c05HarnessOf(func() *c05Driver { return &c05Get()[di] })
+}
+
+// c19HashPairs: each perceptual-hash function twice at the same time on different images (C19: the hash is
+// a function of the pixels of its own argument, whatever else the process is hashing).
+var c19HashPairsCache *c05Driver
+
+func c19HashPairs() *c05Driver {
+	if c19HashPairsCache == nil {
+		c05InitPairs()
+		var es []c05PairEntry
+		for _, e := range c05PairEntries {
+			if strings.HasPrefix(e.name, "NewPHash") {
+				es = append(es, e)
+			}
+		}
+		c19HashPairsCache = &c05Driver{name: "concurrent-hash-pairs",
+			what:     "each of NewPHash64, NewPHash64Alt, NewPHash256, NewPHash256Alt twice at the same time on different images",
+			variants: len(es),
+			vname:    func(v int) string { return es[v].name },
+			build: func(v int) [][]c05Call {
+				e := es[v]
+				return [][]c05Call{{{e.name + "(A)", func() string { return e.run(0) }}}, {{e.name + "(B)", func() string { return e.run(1) }}}}
+			}}
+	}
+	return c19HashPairsCache
+}
+
+func c05HarnessOf(get func() *c05Driver) mc.Harness {
 	return func(x *mc.Exec) {
 		runtime.GOMAXPROCS(1)
-		d0 := &c05Get()[di]
+		d0 := get()
 		d := d0
 		if d0.variants > 0 {
 			v := x.All("entry-point", d0.variants)
